@@ -305,6 +305,29 @@ theorem exec_good : ∀ (f : Nat), IH sc f := by
         | nop =>
           simp only [leaf_andThen]
           exact hK _ none hI (NFle.refl _) hwf hg
+        | ret0 =>
+          simp only [leaf_andThen]
+          exact hK { w with ret0 := self :: w.ret0.filter (· ≠ self) } none (by exact hI) (NFle.refl _) (by exact hwf) (by exact hg)
+        | ra a verb =>
+          simp only
+          split
+          · simp only [leaf_andThen]
+            exact hK _ none hI (NFle.refl _) hwf hg
+          · rename_i a1 ha
+            obtain ⟨e1, hla, hda⟩ := readRef_some ha
+            have hgnf : NF w.c (w.cg.getD a1) := by
+              cases hcg : w.cg with
+              | none => simp only [Option.getD]; rw [e1]; exact live_nf hI hla hda
+              | some g => exact hwf g hcg
+            simp only [ite_andThen, crash_andThen, leaf_andThen]
+            refine good_ite (fun h => crash_absurd (by
+              rcases h with h | h
+              · exact h hgnf.1
+              · rw [hgnf.2] at h; exact absurd h (by decide))) (fun _ => ?_)
+            refine good_ite (fun _ => ?_) (fun _ => hK _ none hI (NFle.refl _) hwf hg)
+            have hso := eraseSent_sentOnly w.c (w.cg.getD a1) (fun t => t.2 == a1 && t.1 == verb)
+            have hle := nfle_sentOnly hso
+            exact hK _ none (sentOnly_inv hso hI) hle (fun g' hgg => hle g' (hwf g' hgg)) hg
         | obf =>
           simp only [ite_andThen, crash_andThen]
           refine good_ite (fun h => crash_absurd (by simp [anyFreed_ol hI] at h)) (fun _ => ?_)
@@ -726,16 +749,33 @@ theorem exec_good : ∀ (f : Nat), IH sc f := by
       refine good_ite (fun h => crash_absurd (by rcases h with h | h; exact h ha.1; simp [ha.2] at h)) (fun _ => ?_)
       refine good_ite (fun _ => good_val (NFle.refl _) hg hwf (by simp)) (fun hd => ?_)
       refine good_ite (fun _ => good_val (NFle.refl _) hg hwf (by simp)) (fun _ => ?_)
+      refine step_good sc ih (by exact hI) (by exact ha) ?_ (by exact hg) (NFle.refl _) ?_
+      · intro g hgg; cases hgg; exact ha
+      · intro w2 v hI2 hle2 hwf2 hg2 hv
+        exact good_val hle2 hg2 (fun g hgg => hle2 g (hwf g hgg)) hv
+    | cmdloop a verb rest saveIsa =>
+      simp only [exec]
+      have ha : NF w.c a := ht
       split
       · exact good_val (NFle.refl _) hg hwf (by simp)
-      · rename_i t hfind
-        have hp := List.find?_some hfind
-        simp at hp
-        have hnf : NF w.c t.2 := live_nf hI hp.1.1 hp.1.2
-        refine step_good sc ih (by exact hI) ⟨hnf, by intro y h; cases h⟩ ?_ (by exact hg) (NFle.refl _) ?_
-        · intro g hgg; cases hgg; exact ha
-        · intro w2 v hI2 hle2 hwf2 hg2 hv
-          exact good_val hle2 hg2 (fun g hgg => hle2 g (hwf g hgg)) (fun x hx => by cases hx; exact hle2 _ ha)
+      · rename_i t rest'
+        refine good_ite (fun _ => ih (.cmdloop a verb rest' saveIsa) w hI ha hwf hg) (fun hc => ?_)
+        have hp : t.2 < w.c.n ∧ (w.c.objs t.2).destructed = false := by
+          have h3 : (decide (t.2 < w.c.n) && !(w.c.objs t.2).destructed && t.1 == verb) = true := by
+            apply Classical.byContradiction; intro h; exact hc h
+          simp at h3; exact ⟨h3.1.1, h3.1.2⟩
+        refine step_good sc ih hI ⟨live_nf hI hp.1 hp.2, by intro y h; cases h⟩ hwf hg (NFle.refl _) ?_
+        intro w1 v hI1 hle1 hwf1 hg1 hv
+        have hwfa : ∀ g, some a = some g → NF w1.c g := fun g hgg => by cases hgg; exact hle1 _ ha
+        refine good_ite (fun _ => good_val hle1 hg1 hwfa ?_) (fun _ => ?_)
+        · intro x hx
+          split at hx
+          · cases hx; exact hle1 _ ha
+          · cases hx
+        refine good_ite (fun _ => good_val hle1 hg1 hwfa (fun x hx => by cases hx; exact hle1 _ ha)) (fun _ => ?_)
+        refine good_ite (fun _ => good_raise hle1 hg1 hwfa) (fun _ => ?_)
+        refine good_ite (fun _ => good_raise hle1 hg1 hwfa) (fun _ => ?_)
+        exact (ih (.cmdloop a verb rest' saveIsa) { w1 with cg := some a } (by exact hI1) (by exact hle1 _ ha) hwfa (by exact hg1)).mono hle1
     | destruct ob =>
       simp only [exec]
       have hob : NF w.c ob := ht
